@@ -36,6 +36,11 @@ class C02(Prop):
         "PrefVerif.C02.sanity_clean",
         "PrefVerif.C02.type_agrees",
         "PrefVerif.C02.cex_invariant_nil",
+        "PrefVerif.C02Indif.maxNumIndif_spec",
+        "PrefVerif.C02Indif.minNumIndif_spec",
+        "PrefVerif.C02Indif.minNumIndif_le_max",
+        "PrefVerif.C02Indif.indif_bounds",
+        "PrefVerif.C02Indif.isStrict_maxNumIndif",
     ]
     rule = ("random histories of 1-8 operations mixing the four entry points and populate_IC/urn/IC_anon/mallows, "
             "strict/weak/partial votes with repeats within and across calls, numpy int ids; each history is replayed "
@@ -47,7 +52,10 @@ class C02(Prop):
                 "vote_map", "full_profile", "flatten_strict", "populate_IC", "populate_urn", "populate_mallows",
                 "populate_IC_anon")] + \
               [("preflibtools.instances.sampling", "prefsampling_ordinal_wrapper"),
-               ("preflibtools.instances.sanity", "orders")]
+               ("preflibtools.instances.sanity", "orders")] + \
+              [("preflibtools.properties.basic", n) for n in
+               ("largest_ballot", "smallest_ballot", "max_num_indif", "min_num_indif", "largest_indif",
+                "smallest_indif", "is_strict", "is_complete")]
 
     # ---------------- generation
     def _vote(self, rng, alts, strict=None, complete=None):
@@ -176,7 +184,8 @@ class C02(Prop):
                 "preferences_alias": inst.preferences is inst.orders,
             }
             obs["sanity"] = call(lambda: sanity.orders(inst))
-            for f in ("is_strict", "is_complete", "largest_ballot", "smallest_ballot"):
+            for f in ("is_strict", "is_complete", "largest_ballot", "smallest_ballot",
+                      "max_num_indif", "min_num_indif", "largest_indif", "smallest_indif"):
                 r = call(getattr(basic, f), inst)
                 obs[f] = r if r[0] != "ok" else ("ok", r[1] if isinstance(r[1], bool) else int(r[1]))
         return obs
@@ -299,6 +308,18 @@ class C02(Prop):
         sizes = [sum(len(c) for c in o) for o in spec]
         if st["largest_ballot"] != ("ok", max(sizes)) or st["smallest_ballot"] != ("ok", min(sizes)):
             P("ballot-size statistics disagree with the votes", "ballot_stats")
+        nind = [sum(1 for c in o if len(c) > 1) for o in spec]
+        csz = [len(c) for o in spec for c in o if len(c) > 0]
+        nalt = len(ms["specAlts"])
+        want = {"max_num_indif": max(nind + [0]), "min_num_indif": min(nind + [nalt]),
+                "largest_indif": max(csz + [0]), "smallest_indif": min(csz + [nalt])}
+        for f, mk in (("max_num_indif", "maxNumIndif"), ("min_num_indif", "minNumIndif"),
+                      ("largest_indif", "largestIndif"), ("smallest_indif", "smallestIndif")):
+            if st[f] != ("ok", want[f]):
+                P(f"{f} {st[f]} but the votes give {want[f]}", "indif_stats")
+            elif mk in ms and ms[mk] != want[f]:
+                out.append(Problem("disagreement", case, f"after operation {i + 1}: Lean model {mk}={ms[mk]} "
+                                   f"but the implementation and the votes give {want[f]}", "model/indif_stats"))
         if t in ("soc", "soi"):
             fl = {tuple(o): m for o, m in st["flatten"][1]} if st["flatten"][0] == "ok" else None
             if fl != {tuple(c[0] for c in o): m for o, m in spec.items()}:
